@@ -339,6 +339,174 @@ theorem optsOfList_perm {l₁ l₂ : List (Str × Str)} (h : l₁ ~ l₂) (hnd :
   · exact (List.reverse_perm l₁).trans (h.trans (List.reverse_perm l₂).symm)
   · rw [List.map_reverse]; exact List.nodup_reverse.mpr hnd
 
+/-! ### lifting to whole documents -/
+
+/-- the emitter does not look at the segment's file list nor at the document's segment list
+(it is handed the entry to emit): replacing them changes nothing. -/
+theorem emitEntry_irrelevant (cx : Ctx) (seg : Segment) (secs : List Str) (segs' : List Segment) (fs' : List FileInfo) :
+    ∀ (fuel : Nat) (f : FileInfo) (sec base : Str) (parents : List Str),
+      emitEntry { cx with d := { cx.d with segments := segs' } } { seg with files := fs' } secs fuel f sec base parents
+        = emitEntry cx seg secs fuel f sec base parents := by
+  intro fuel
+  induction fuel with
+  | zero => intro f sec base parents; rfl
+  | succ n ih =>
+    intro f sec base parents
+    unfold emitEntry
+    simp only [ih, subgroupsOf]
+
+theorem depth_FEq : ∀ (f₁ f₂ : FileInfo), FEq f₁ f₂ → FileInfo.depth f₁ = FileInfo.depth f₂
+  | .mk p k sf pa se lo so fs dir c keep, .mk p' k' sf' pa' se' lo' so' fs' dir' c' keep', h => by
+    unfold FEq at h
+    unfold FileInfo.depth
+    rw [depthList_FEqL fs fs' h.2.2.2.2.2.2.2.1]
+where
+  depthList_FEqL : ∀ (l₁ l₂ : List FileInfo), FEqL l₁ l₂ → FileInfo.depthList l₁ = FileInfo.depthList l₂
+  | [], [], _ => rfl
+  | a :: as, b :: bs, h => by
+    unfold FEqL at h
+    unfold FileInfo.depthList
+    rw [depth_FEq a b h.1, depthList_FEqL as bs h.2]
+  | [], _ :: _, h => by simp [FEqL] at h
+  | _ :: _, [], h => by simp [FEqL] at h
+
+/-- the same segment up to the visiting order of every `section_order` of its entries. -/
+def SegEq (s s' : Segment) : Prop := ∃ fs', FEqL s.files fs' ∧ s' = { s with files := fs' }
+
+/-- the same document up to the visiting order of every `section_order`. -/
+def DocEq (d d' : Document) : Prop := ∃ segs', List.Forall₂ SegEq d.segments segs' ∧ d' = { d with segments := segs' }
+
+theorem emitSection_eq (cx : Ctx) (seg : Segment) (segs' : List Segment) (fs' : List FileInfo) (hf : FEqL seg.files fs')
+    (sec : Str) (sections : List Str) :
+    emitSection { cx with d := { cx.d with segments := segs' } } { seg with files := fs' } sec sections
+      = emitSection cx seg sec sections := by
+  unfold emitSection
+  have hfuel : fuelFor { seg with files := fs' } = fuelFor seg := by
+    unfold fuelFor subgroupValues
+    rw [← depth_FEq.depthList_FEqL seg.files fs' hf]
+  simp only [hfuel]
+  have hc : ∀ base, concatMapE (fun file => emitEntry { cx with d := { cx.d with segments := segs' } } { seg with files := fs' }
+        sections (fuelFor seg) file sec base []) fs'
+      = concatMapE (fun file => emitEntry cx seg sections (fuelFor seg) file sec base []) seg.files := by
+    intro base
+    simp only [emitEntry_irrelevant]
+    exact (concatMapE_congr _ FEq (fun a b hab => emitEntry_perm cx seg sections (fuelFor seg) a b hab sec base [])
+      seg.files fs' (FEqL_forall₂ _ _ hf)).symm
+  simp only [hc]
+
+theorem writeSegment_eq (cx : Ctx) (seg : Segment) (segs' : List Segment) (fs' : List FileInfo) (hf : FEqL seg.files fs')
+    (sections : List Str) (noload : Bool) :
+    writeSegment { cx with d := { cx.d with segments := segs' } } { seg with files := fs' } sections noload
+      = writeSegment cx seg sections noload := by
+  unfold writeSegment
+  simp only [emitSection_eq cx seg segs' fs' hf]
+  rfl
+
+theorem writeSingleSegment_eq (cx : Ctx) (seg : Segment) (segs' : List Segment) (fs' : List FileInfo) (hf : FEqL seg.files fs')
+    (sections : List Str) (noload : Bool) :
+    writeSingleSegment { cx with d := { cx.d with segments := segs' } } { seg with files := fs' } sections noload
+      = writeSingleSegment cx seg sections noload := by
+  unfold writeSingleSegment
+  simp only [emitSection_eq cx seg segs' fs' hf]
+  rfl
+
+theorem addSegment_eq (cx : Ctx) (seg seg' : Segment) (segs' : List Segment) (h : SegEq seg seg') (em : List Str) :
+    addSegment { cx with d := { cx.d with segments := segs' } } em seg' = addSegment cx em seg := by
+  obtain ⟨fs', hf, rfl⟩ := h
+  unfold addSegment
+  simp only [writeSegment_eq cx seg segs' fs' hf]
+  rfl
+
+theorem addSegments_eq (cx : Ctx) (segs' : List Segment) :
+    ∀ (l l' : List Segment), List.Forall₂ SegEq l l' → ∀ em,
+      addSegments { cx with d := { cx.d with segments := segs' } } em l' = addSegments cx em l := by
+  intro l l' h
+  induction h with
+  | nil => intro em; rfl
+  | cons hab _ ih =>
+    intro em
+    unfold addSegments
+    rw [addSegment_eq cx _ _ segs' hab em]
+    simp only [ih]
+
+theorem addSingleSegment_eq (cx : Ctx) (seg seg' : Segment) (segs' : List Segment) (h : SegEq seg seg') :
+    addSingleSegment { cx with d := { cx.d with segments := segs' } } seg' = addSingleSegment cx seg := by
+  obtain ⟨fs', hf, rfl⟩ := h
+  unfold addSingleSegment
+  simp only [writeSingleSegment_eq cx seg segs' fs' hf]
+  rfl
+
+theorem addAllSegments_eq (cx : Ctx) (segs segs' : List Segment) (hs : cx.d.segments = segs) (h : List.Forall₂ SegEq segs segs') :
+    addAllSegments { cx with d := { cx.d with segments := segs' } } = addAllSegments cx := by
+  unfold addAllSegments
+  simp only [hs, addSegments_eq cx segs' _ _ h]
+  cases h with
+  | nil => rfl
+  | cons hab hrest =>
+    cases hrest with
+    | nil => simp only [addSingleSegment_eq cx _ _ _ hab]; rfl
+    | cons _ _ => rfl
+
+theorem generateNormal_eq (d d' : Document) (h : DocEq d d') (o : Opts) (vc : Bool) :
+    generateNormal d' o vc = generateNormal d o vc := by
+  obtain ⟨segs', hf, rfl⟩ := h
+  unfold generateNormal
+  have := addAllSegments_eq { d := d, o := o, esc := escapePath } d.segments segs' rfl hf
+  simp only at this
+  rw [this]
+  rfl
+
+theorem partialSegments_eq (d : Document) (segs' : List Segment) (o : Opts) (vc : Bool) (folder : Str) :
+    ∀ (l l' : List Segment), List.Forall₂ SegEq l l' → ∀ em,
+      partialSegments { d with segments := segs' } o vc folder escapePath em l'
+        = partialSegments d o vc folder escapePath em l := by
+  intro l l' h
+  induction h with
+  | nil => intro em; rfl
+  | @cons a b as bs hab _ ih =>
+    intro em
+    obtain ⟨fs', hf, rfl⟩ := hab
+    unfold partialSegments
+    have h1 := addSingleSegment_eq { d := d, o := o, emitKindSyms := false, emitSecSyms := false, esc := escapePath } a _ segs' ⟨fs', hf, rfl⟩
+    simp only at h1
+    have h2 : ∀ em, addSegment { d := { d with segments := segs' }, o := o, refPartial := true, esc := escapePath } em
+        (partialSegment folder { a with files := fs' })
+        = addSegment { d := d, o := o, refPartial := true, esc := escapePath } em (partialSegment folder a) := by
+      intro em
+      exact addSegment_eq { d := d, o := o, refPartial := true, esc := escapePath } (partialSegment folder a) _ segs' ⟨_, by
+        unfold partialSegment; simp only []; exact ⟨by unfold FileInfo.newObject FEq; exact ⟨rfl, rfl, rfl, rfl, rfl, rfl, List.Perm.refl _, trivial, rfl, rfl, rfl⟩, trivial⟩, rfl⟩ em
+    simp only [h1, h2, ih]
+
+theorem generatePartial_eq (d d' : Document) (h : DocEq d d') (o : Opts) (vc : Bool) :
+    generatePartial d' o vc = generatePartial d o vc := by
+  obtain ⟨segs', hf, rfl⟩ := h
+  unfold generatePartial
+  simp only [partialSegments_eq d segs' o vc _ _ _ hf]
+  rfl
+
+/-- **C15 for whole documents**: two parsed documents that differ only in the order in which
+the `section_order` map of any file entry (at any nesting depth, in any segment) is visited
+generate the same outputs — scripts, partial scripts, dependency texts, header, symbol list —
+in both modes. The model iterates no other hash-based field: all others are only looked up. -/
+theorem generate_section_order_independent (d d' : Document) (h : DocEq d d') (o : Opts) (m : Mode) (vc : Bool) :
+    generate d' o m vc = generate d o m vc := by
+  unfold generate
+  rw [generateNormal_eq d d' h o vc, generatePartial_eq d d' h o vc]
+  obtain ⟨segs', _, rfl⟩ := h
+  rfl
+
+/-- a file whose two `section_order` entries are visited in one order, and in the other. -/
+def exFile (so : List (Str × Str)) : FileInfo := .mk c!"x.o" .object [] 0 [] [] so [] [] ({} : Cond) .absent
+def exDoc (so : List (Str × Str)) : Document :=
+  { settings := {}, segments := [{ name := c!"a", allocSections := [c!".text"], noloadSections := [], files := [exFile so] }] }
+
+/-- the hypothesis is met by documents that really differ. -/
+example : DocEq (exDoc [(c!".data", c!".text"), (c!".rodata", c!".text")]) (exDoc [(c!".rodata", c!".text"), (c!".data", c!".text")]) :=
+  ⟨_, .cons ⟨[exFile [(c!".rodata", c!".text"), (c!".data", c!".text")]], by
+      show FEqL [exFile _] [exFile _]
+      unfold FEqL exFile FEq
+      exact ⟨⟨rfl, rfl, rfl, rfl, rfl, rfl, List.Perm.swap _ _ _, by unfold FEqL; trivial, rfl, rfl, rfl⟩, by unfold FEqL; trivial⟩, rfl⟩ .nil, rfl⟩
+
 /-- hence every output of every mode is the same: generation is a function of the option
 *map* (the model looks options up and never iterates them). -/
 theorem generate_option_order (d : Document) (m : Mode) (vc : Bool) {l₁ l₂ : List (Str × Str)}
